@@ -182,8 +182,27 @@ def run(ctx):
                     and (t.get("arg_tys") or ["", "", ""])[0].endswith("HashMap<std::string::String, models::link::metadata::LinkMetadata>") \
                     and "run_all_inspections" not in f["path"]:
                 reps.append((f, bi, t))
+    reg_reps = []
     if not reps:
+        # the map may be built by `.map(..).collect::<Result<HashMap<..>>>()`: look at the regions (collect desugared into insertions)
+        for f in ctx.fx.doc["fns"]:
+            if not f["path"].startswith("verifylib::") or f["kind"] not in ("Fn", "AssocFn") or f.get("exp") or "run_all_inspections" in f["path"]:
+                continue
+            if "HashMap<std::string::String, models::link::metadata::LinkMetadata>" not in f["locals"][0]["ty"]:
+                continue
+            rb0 = ctx.region(None, policy="private", key=f["key"], ps=True)
+            for (bi, t) in rb0.calls_named("std::collections::HashMap::insert"):
+                if len(t["args"]) == 3 and "LinkMetadata" in " ".join(t.get("arg_tys") or []) and "KeyId" not in (t.get("arg_tys") or ["", ""])[1]:
+                    reg_reps.append((f, bi, t, rb0))
+    if not reps and not reg_reps:
         ctx.bad("C02/D5", "representative link", "no construction of the step -> link map found")
+    for (f, bi, t, rb) in reg_reps:
+        lv = rb.trace(t["args"][2])
+        okr = bool(lv) and all(("Option::ok_or_else" in lf.via or "Option::ok_or" in lf.via) and "Try::branch" in lf.via for lf in lv)
+        if not okr:
+            okr = any(fc[0] == "variant" and fc[2] == "Some" for (e, fc) in rb.facts_dominating(bi))
+        ctx.inst("C02/D5", "representative exists or verification fails", okr,
+                 "representative <- {%s}" % ", ".join(leaf_s(rb, l) for l in lv), t["at"])
     for (f, bi, t) in reps:
         rb = body_of(ctx.fx, f["key"])
         ctx.touch_fn(f)
